@@ -164,6 +164,38 @@ Definition check_lognormal_prior (P : qmat_t) (m x lx x1 lx1 : list Qc) (g : lis
   q_close tol9 dobs (this (lognormal_logk P mm lx1 - lognormal_logk P mm lx)).
 
 (* ------------------------------------------------------------------------------------------
+   dimensions where an explicit inverse is out of reach (sparse-storage / eigen-decomposition paths, dim > 75):
+   symmetric operators applied to a vector without forming products of matrices, and CERTIFICATES: with a
+   covariance-type operator C (precision C^-1) the gradient g is certified by the linear system it solves,
+   C g = -(x - m); the logd difference by  logd(x1) - logd(x0) = <g0, dx> - 1/2 <dx, g0 - g1>  (P dx = g0 - g1). *)
+Inductive bigop := OMat (M : qmat_t) | OGram (n : nat) (R : qmat_t)      (* R^T R, R with n columns *)
+                 | OGramT (n : nat) (R : qmat_t)                          (* R R^T *)
+                 | ODiag (v : list Qc) | OScal (a : Qc) | OScaled (a : Qc) (o : bigop).
+Fixpoint apply_op (o : bigop) (v : list Qc) : list Qc :=
+  match o with
+  | OMat M => qmatvec M v
+  | OGram n R => qmattvec n R (qmatvec R v)
+  | OGramT n R => qmatvec R (qmattvec n R v)
+  | ODiag d => vmul d v
+  | OScal a => qvscale a v
+  | OScaled a o' => qvscale a (apply_op o' v)
+  end.
+(* inverse = false: the operator is the precision; inverse = true: it is the covariance *)
+Definition check_big (inverse : bool) (o : bigop) (m x : list Qc) (g : list Q) : bool :=
+  let e := qvsub x (qbcast (length x) m) in
+  if inverse then ql_close tol9 (map this (apply_op o (qvec g))) (map this (qvneg e))
+  else vec_close tol9 g (qvneg (apply_op o e)).
+Definition check_big_logd (g0 g1 : list Q) (x0 x1 : list Qc) (dobs : Q) : bool :=
+  let dx := qvsub x1 x0 in
+  q_close tol9 dobs (this (qdot (qvec g0) dx - half * qdot dx (qvsub (qvec g0) (qvec g1)))).
+(* likelihood through a linear model B (k x n): w certifies P (data - B theta) (checked through the operator), g = B^T w *)
+Definition check_big_lik (inverse : bool) (o : bigop) (n : nat) (B : qmat_t) (data th : list Qc) (w g : list Q) : bool :=
+  let r := qvsub data (qmatvec B th) in
+  (if inverse then ql_close tol9 (map this (apply_op o (qvec w))) (map this r)
+   else vec_close tol9 w (apply_op o r)) &&
+  vec_close tol9 g (qmattvec n B (qvec w)).
+
+(* ------------------------------------------------------------------------------------------
    sum rule: Posterior._gradient = likelihood.gradient + prior.gradient;
    MultipleLikelihoodPosterior.gradient = sum over all densities *)
 Fixpoint qlvadd (x y : list Q) : list Q :=
